@@ -50,6 +50,10 @@ const REQUEST_BUF_LEN: usize = 512;
 /// - scrape response for 170 info hashes
 const RESPONSE_BUF_LEN: usize = 2048;
 
+/// Largest value of `protocol.max_response_peers` for which an IPv6 announce
+/// response still fits in a response buffer
+const MAX_RESPONSE_PEERS_LIMIT_URING: usize = (RESPONSE_BUF_LEN - 20) / 18;
+
 const USER_DATA_RECV_V4: u64 = u64::MAX;
 const USER_DATA_RECV_V6: u64 = u64::MAX - 1;
 const USER_DATA_PULSE_TIMEOUT: u64 = u64::MAX - 2;
@@ -110,6 +114,13 @@ impl SocketWorker {
         validator: ConnectionValidator,
         mut priv_droppers: Vec<PrivilegeDropper>,
     ) -> anyhow::Result<()> {
+        if config.protocol.max_response_peers > MAX_RESPONSE_PEERS_LIMIT_URING {
+            return Err(anyhow::anyhow!(
+                "protocol.max_response_peers can not be larger than {} when using io_uring, since responses would not fit in the send buffers",
+                MAX_RESPONSE_PEERS_LIMIT_URING
+            ));
+        }
+
         let ring_entries = config.network.ring_size.next_power_of_two();
         // Try to fill up the ring with send requests
         let send_buffer_entries = ring_entries;
